@@ -22,6 +22,7 @@ import (
 	"sort"
 	"strings"
 	"sync"
+	"syscall"
 	"testing"
 	"testing/synctest"
 	"time"
@@ -99,6 +100,8 @@ type cCfg struct {
 	MinS, MaxS, Preview int
 	Cont                bool
 	MinDiskMB           uint64
+	SimFree             bool   // the simulated disk answers the free-space question for the output directory
+	SimFreeMB           uint64 // ... with this many whole MB free
 	Amp                 int      // how much warmer than the scene the blob is
 	NFrames             int      // generator: exact number of events (0 = drawn)
 	AllMotion           bool     // generator: the blob toggles on every frame
@@ -115,6 +118,38 @@ type cCfg struct {
 }
 
 func (c *cCfg) boson() bool { return c.Model == "boson" }
+
+// allBorder: the configured edge border leaves no interior pixel (every pixel is a border pixel)
+func (c *cCfg) allBorder() bool {
+	return 2*c.Exp.EdgePixels >= c.W || 2*c.Exp.EdgePixels >= c.H
+}
+
+// diskOK: the free-disk-space check passes when the free space is at least the configured minimum
+func (c *cCfg) diskOK() bool {
+	if c.SimFree {
+		return c.SimFreeMB >= c.MinDiskMB
+	}
+	return c.MinDiskMB < 1000000
+}
+
+// statfsHook is the simulated disk for the output directory of this configuration
+func (c *cCfg) statfsHook(outDir string) func(string, *syscall.Statfs_t) (bool, error) {
+	if !c.SimFree {
+		return nil
+	}
+	free := c.SimFreeMB
+	return func(path string, st *syscall.Statfs_t) (bool, error) {
+		if filepath.Clean(path) != filepath.Clean(outDir) {
+			return false, nil
+		}
+		*st = syscall.Statfs_t{}
+		st.Bsize = 4096
+		st.Bavail = free*256 + 255 // whole MB free: `free`, plus most of another one
+		st.Bfree = st.Bavail
+		st.Blocks = st.Bavail*2 + 256
+		return true, nil
+	}
+}
 func (c *cCfg) frameSize() int {
 	if c.boson() {
 		return c.W * c.H * 2
@@ -358,6 +393,42 @@ func genCfg(r *verifsim.Run, focus string) cCfg {
 			// fit 64 bits are legal settings too (the comparison is in MB).
 			c.MinDiskMB = []uint64{1000000000, 1000000000, 1 << 44, 1 << 50, 1 << 62, 1<<63 - 1, 3 << 43}[r.Draw(7)]
 		}
+		if r.Chance(1, 3) {
+			// the simulated disk: free space exactly at, just above, just below the minimum, and an empty-handed
+			// volume (0 MB free) with the check switched off (minimum 0)
+			c.SimFree = true
+			c.MinDiskMB = uint64(r.OneOf(0, 0, 1, 200, 5000))
+			switch r.Draw(4) {
+			case 0:
+				c.SimFreeMB = c.MinDiskMB
+			case 1:
+				c.SimFreeMB = c.MinDiskMB + 1
+			case 2:
+				if c.MinDiskMB > 0 {
+					c.SimFreeMB = c.MinDiskMB - 1
+				}
+			case 3:
+				c.SimFreeMB = 0
+			}
+		}
+	case "C13":
+		if !c.Exp.DynamicThreshold && r.Chance(1, 10) {
+			// an edge border wider than half the frame in both dimensions: no interior pixel is left, a zero
+			// anywhere is a zero in the border (fixed threshold only: the background estimate of a dynamic
+			// threshold indexes outside such a frame - an observation outside every quantifier)
+			m := c.W
+			if c.H > m {
+				m = c.H
+			}
+			c.Exp.EdgePixels = m/2 + 1 + r.Draw(2)
+			var keys []string
+			for _, k := range c.MotionKeys {
+				if !strings.HasPrefix(k, "edge-pixels ") {
+					keys = append(keys, k)
+				}
+			}
+			c.MotionKeys = append(keys, fmt.Sprintf("edge-pixels = %d", c.Exp.EdgePixels))
+		}
 	case "C05", "C06":
 		c.ThrOn = !r.Chance(1, 5)
 		if c.ThrOn {
@@ -449,6 +520,17 @@ func (s *cScene) next(kind byte, move bool) cEvent {
 		s.blob = !s.blob
 	}
 	p := zz.NewPix(c.W, c.H, s.base)
+	ab := c.allBorder()
+	if ab && kind == 'B' {
+		kind = 'F' // no interior pixel: there is no place for a zero that makes the frame a bad one
+	}
+	if ab && s.blob {
+		p[c.H/2][c.W/2] = s.base + uint16(c.Amp) // warm pixels come and go, all of them in the border
+		p[c.H/2][c.W/2-1] = s.base + uint16(c.Amp)
+	}
+	if ab && s.r.Chance(1, 3) {
+		p[s.r.Draw(c.H)][s.r.Draw(c.W)] = 0 // a zero in the border: the frame is valid
+	}
 	if s.blob {
 		n := 0
 		for y := c.Exp.EdgePixels; y < c.H-c.Exp.EdgePixels && n < 4; y++ {
@@ -482,7 +564,7 @@ func (s *cScene) next(kind byte, move bool) cEvent {
 			p[c.H/2][c.W/2] = 0
 		}
 	}
-	if edge >= 1 && s.r.Chance(1, 8) {
+	if edge >= 1 && !ab && s.r.Chance(1, 8) {
 		// zero pixels in the border only: the frame is valid
 		switch s.r.Draw(4) {
 		case 0:
@@ -794,6 +876,7 @@ func execPlain(sc *cScenario) *cResult {
 					os.Rename(outDir, outDir+".gone")
 				}
 			}
+			verifsim.StatfsHook = cn.Cfg.statfsHook(outDir)
 			nProc := 0
 			verifsim.Hook = func(label string) {
 				switch label {
@@ -825,6 +908,7 @@ func execPlain(sc *cScenario) *cResult {
 			cameraPlain(cn, b)
 			<-done
 			verifsim.Hook = nil
+			verifsim.StatfsHook = nil
 			if processor != nil {
 				cr.Accepted = append(cr.Accepted, processor.CurrentFrame)
 			}
@@ -852,6 +936,7 @@ func execPlain(sc *cScenario) *cResult {
 // frameLogInterval* by the fps on every connection, so a long-lived process with an even
 // fps reaches 0 after 32-64 reconnects and then divides by zero.
 func resetProcessGlobals() {
+	verifsim.StatfsHook = nil
 	frameLogIntervalFirstMin = 15
 	frameLogInterval = 60 * 5
 	processor = nil
@@ -1034,7 +1119,7 @@ func reference(cn *cConn, procTimes []time.Time, delivered int) ([]refRec, *zz.T
 				// the daemon reads the clock after the processing cost has been charged
 				clock.T = procTimes[nF].Add(time.Duration(cn.Costs[nF%len(cn.Costs)]) * time.Millisecond)
 			}
-			ev.DiskOK = c.MinDiskMB < 1000000
+			ev.DiskOK = c.diskOK()
 			nF++
 			ev.ID = e.ID
 			feed.next = e
@@ -1235,7 +1320,7 @@ func runCE2E(r *verifsim.Run) {
 				cfg.MinS = r.Range(1, 3)
 				cfg.ThrOn = false
 				cfg.WinStart, cfg.WinStop = "12:00", "12:00"
-				cfg.MinDiskMB = 0
+				cfg.MinDiskMB, cfg.SimFree = 0, false
 				cfg.Exp = goconfig.DefaultThermalMotion(cfg.Model)
 				cfg.MotionKeys = []string{"dynamic-threshold = false", "temp-thresh = 2900", "delta-thresh = 50", "count-thresh = 3", "frame-compare-gap = 1"}
 				cfg.Exp.DynamicThreshold, cfg.Exp.TempThresh, cfg.Exp.DeltaThresh, cfg.Exp.CountThresh, cfg.Exp.FrameCompareGap = false, 2900, 50, 3, 1
@@ -1477,6 +1562,15 @@ func checkE2E(r *verifsim.Run, sc *cScenario, res *cResult) {
 		if c.MinDiskMB >= 1000000 {
 			r.Probe("disk-refusal-through-statfs")
 		}
+		if c.allBorder() {
+			r.Probe("edge-border-covers-the-whole-frame")
+		}
+		if c.SimFree {
+			r.Probe(fmt.Sprintf("simulated-disk-free-space: %s the minimum", map[bool]string{true: "at or above", false: "below"}[c.diskOK()]))
+			if c.SimFreeMB == c.MinDiskMB {
+				r.Probe("simulated-disk-free-space-equals-the-minimum")
+			}
+		}
 		if c.W >= 160 {
 			r.Probe("realistic-sensor-size")
 		}
@@ -1577,7 +1671,7 @@ func checkE2E(r *verifsim.Run, sc *cScenario, res *cResult) {
 			if dir == "." && sc.Focus == "C04" {
 				c0 := &sc.Conns[0].Cfg
 				why := "window"
-				if c0.MinDiskMB >= 1000000 {
+				if c0.MinDiskMB >= 1000000 || c0.SimFree {
 					why = "disk"
 				}
 				r.Violate("C04", "C04.files", why, "window %s-%s, min-disk-space-mb %d: the output directory holds %d finished recordings %v; starts allowed only with the window open and enough disk space call for %d %v", c0.WinStart, c0.WinStop, c0.MinDiskMB, len(act), names, len(exp), wants)
